@@ -217,3 +217,66 @@ extern "C" void h_c14d_single_byte()
     if (iso && x >= 0x80 && x <= 0x9F) CHECKM(!vx, "C1 control accepted by an ISO-8859 validator");
     free(b);
 }
+
+// C14.f: validate_or_filter_single_byte_charset: true <=> every byte valid on its own, output
+// untouched; false => output is the input with every invalid byte replaced (or dropped when the
+// replacement is 0), valid bytes kept in order.
+extern "C" void h_c14f_filter_single_byte()
+{
+    bool iso;
+    sb_validator v = pick_validator(verif_param(0), iso);
+    unsigned n = verif_param(1);
+    unsigned char *b = (unsigned char *)malloc(n ? n : 1);
+    for (unsigned i = 0; i < n; i++) b[i] = nondet_u8();
+    char repl = (char)nondet_u8();
+    std::string out("x");
+    out.reserve(40);
+    bool r = cppcms::encoding::validate_or_filter_single_byte_charset(v, (char const *)b, (char const *)b + n, out, repl);
+    bool all = true;
+    unsigned char exp[4]; unsigned m = 0;
+    for (unsigned i = 0; i < n; i++) {
+        size_t c = 0;
+        bool ok = v((char const *)b + i, (char const *)b + i + 1, c);
+        if (ok) exp[m++] = b[i];
+        else { all = false; if (repl) exp[m++] = (unsigned char)repl; }
+    }
+    CHECKM(r == all, "filter verdict differs from: every byte valid");
+    if (r) {
+        CHECKM(out.size() == 1 && out[0] == 'x', "output modified although input was valid");
+        WITNESS("valid input");
+    } else {
+        CHECKM(out.size() == m, "filtered output has the wrong length");
+        for (unsigned i = 0; i < m && i < 4; i++) CHECKM((unsigned char)out[i] == exp[i], "filtered output differs from per-byte replacement");
+        WITNESS("filtered");
+    }
+    VERIF_END();
+}
+
+// C14.g: encodings_comparator (the order of the validator dispatch table): a strict weak order equal
+// to comparing the names reduced to lower-case letters and digits, so "UTF-8", "utf8" and "Utf_8"
+// select the same validator and different encodings never collide.
+extern "C" void h_c14g_name_comparator()
+{
+    unsigned nl = verif_param(0), nr = verif_param(1);
+    char L[6], R[6];
+    for (unsigned i = 0; i < nl; i++) { L[i] = (char)nondet_u8(); ASSUME(L[i] != 0); }
+    for (unsigned i = 0; i < nr; i++) { R[i] = (char)nondet_u8(); ASSUME(R[i] != 0); }
+    L[nl] = 0; R[nr] = 0;
+    char NL[6], NR[6]; unsigned kl = 0, kr = 0;
+    for (unsigned i = 0; i < nl; i++) { char c = L[i]; if (c >= 'A' && c <= 'Z') c = (char)(c - 'A' + 'a'); if ((c >= 'a' && c <= 'z') || (c >= '0' && c <= '9')) NL[kl++] = c; }
+    for (unsigned i = 0; i < nr; i++) { char c = R[i]; if (c >= 'A' && c <= 'Z') c = (char)(c - 'A' + 'a'); if ((c >= 'a' && c <= 'z') || (c >= '0' && c <= '9')) NR[kr++] = c; }
+    bool less = false, decided = false;
+    for (unsigned i = 0; !decided && (i < kl || i < kr); i++) {
+        if (i >= kl) { less = true; decided = true; }
+        else if (i >= kr) { less = false; decided = true; }
+        else if (NL[i] != NR[i]) { less = NL[i] < NR[i]; decided = true; }
+    }
+    cppcms::encoding::impl::encodings_comparator cmp;
+    bool lr = cmp((char const *)L, (char const *)R);
+    bool rl = cmp((char const *)R, (char const *)L);
+    CHECKM(lr == less, "comparator differs from lexicographic order of the normalised names");
+    CHECKM(!(lr && rl), "comparator is not asymmetric");
+    if (!lr && !rl) { CHECKM(kl == kr, "names with different normalised forms compare equivalent"); WITNESS("equivalent"); }
+    if (lr) WITNESS("less");
+    VERIF_END();
+}
